@@ -64,6 +64,9 @@ pub struct FramesCase {
     pct_depth: Option<u8>,
     /// one thread also prints log lines through the MultiProgress
     logger: bool,
+    /// one thread removes the last bar from the MultiProgress while its owner keeps updating it
+    #[serde(default)]
+    remover: bool,
 }
 
 fn body(c: &FramesCase) {
@@ -89,16 +92,33 @@ fn body(c: &FramesCase) {
             }
         }));
     }
+    // while a suspend closure runs the region stays hidden: no frame may be flushed in that window
+    let painted_in_suspend = Arc::new(std::sync::atomic::AtomicUsize::new(0));
     if c.logger {
-        let mp2 = mp.clone();
+        let (mp2, spy2, flag) = (mp.clone(), spy.clone(), painted_in_suspend.clone());
         hs.push(shuttle::thread::spawn(move || {
             let _ = mp2.println("log");
-            mp2.suspend(|| ());
+            mp2.suspend(|| {
+                let n = spy2.frames.lock().unwrap().len();
+                shuttle::thread::yield_now();
+                shuttle::thread::yield_now();
+                let m = spy2.frames.lock().unwrap().len();
+                flag.fetch_add(m - n, std::sync::atomic::Ordering::SeqCst);
+            });
+        }));
+    }
+    if c.remover {
+        let (mp2, victim) = (mp.clone(), bars[n - 1].clone());
+        hs.push(shuttle::thread::spawn(move || {
+            shuttle::thread::yield_now();
+            mp2.remove(&victim);
         }));
     }
     for h in hs {
         h.join().expect("worker panicked");
     }
+    let in_suspend = painted_in_suspend.load(std::sync::atomic::Ordering::SeqCst);
+    assert!(in_suspend == 0, "FRAMES: {in_suspend} frame(s) were painted by other threads while a suspend closure was running");
     for pb in &bars {
         pb.force_draw();
     }
@@ -123,10 +143,17 @@ fn body(c: &FramesCase) {
             last[t] = Some((p, m));
         }
         for t in 0..n {
-            assert!(last[t].is_none() || seen[t] || fr.is_empty(), "FRAMES: bar T{t} was shown before and is missing in frame {k}: {fr:?}");
+            let removed = c.remover && t == n - 1;
+            assert!(removed || last[t].is_none() || seen[t] || fr.is_empty(), "FRAMES: bar T{t} was shown before and is missing in frame {k}: {fr:?}");
         }
     }
     for t in 0..n {
+        if c.remover && t == n - 1 {
+            // removed: gone from the last frame (its position still follows the calls)
+            assert!(frames.last().map_or(true, |f| !f.iter().any(|l| l.starts_with(&format!("T{t}:")))), "FRAMES: the removed bar T{t} is still painted in the last frame");
+            assert_eq!(bars[t].position(), updates, "FRAMES: position of the removed bar");
+            continue;
+        }
         assert_eq!(last[t], Some((updates, updates)), "FRAMES: the last frame does not show the final state of bar T{t}");
     }
 }
@@ -154,6 +181,7 @@ fn run_frames(c: &FramesCase) -> CaseResult {
             v.nontrivial = true;
             v.label("schedules_explored");
             v.label_if(c.logger, "with_println_and_suspend");
+            v.label_if(c.remover, "bar_removed_while_updated");
             v.label_if(c.pct_depth.is_some(), "pct_scheduler");
             Ok(v)
         }
@@ -180,14 +208,14 @@ pub fn property() -> Property {
             rule: "2-3 shuttle threads each own one bar of a shared MultiProgress and issue update(set_pos(k)); set_message(k) for k = 1..=updates (1-6), optionally a fourth thread calling mp.println and mp.suspend; 150 (thorough 2000) random or PCT schedules per program; every recorded frame must show each bar at most once, in order, in a state it really had, never older than in an earlier frame, and the last frame the final states",
             strategy: |t| {
                 let schedules = t.pick(150u32, 2000);
-                (2u8..=3, 1u8..=6, any::<u64>(), proptest::option::weighted(0.3, 1u8..4), any::<bool>())
-                    .prop_map(move |(threads, updates, seed, pct_depth, logger)| FramesCase { threads, updates, seed, schedules, pct_depth, logger })
+                (2u8..=3, 1u8..=6, any::<u64>(), proptest::option::weighted(0.3, 1u8..4), any::<bool>(), proptest::bool::weighted(0.3))
+                    .prop_map(move |(threads, updates, seed, pct_depth, logger, remover)| FramesCase { threads, updates, seed, schedules, pct_depth, logger, remover })
                     .boxed()
             },
             cases: |t| t.pick(40, 600),
             run: run_frames,
             signature: no_signature,
-            essential: &["schedules_explored", "with_println_and_suspend", "pct_scheduler"],
+            essential: &["schedules_explored", "with_println_and_suspend", "pct_scheduler", "bar_removed_while_updated"],
             workers: default_workers(),
             decode: None,
         })],
